@@ -251,6 +251,9 @@ Inductive aop :=
 Definition soft_or_hard (s : astate) (r : res astate) : ares :=
   match r with Ok s' => AOk s' | Err e => AHard e end.
 
+(* the data set is a child of the hole: hole.remove_children / the driver only ever address a hole's own children *)
+Definition owns (s : astate) (h d : nat) : bool := existsb (fun p : nat * nat => Nat.eqb (snd p) d) (keys_of s h).
+
 Definition live_hole (s : astate) (h : nat) : bool :=
   memb h (objids s) && match find_rec h (recs s) with Some r => kind_eqb (a_kind r) KHole | None => false end.
 
@@ -281,6 +284,7 @@ Definition api_step (s : astate) (op : aop) : ares :=
       end
   | AddData h pgname name pgid depid did depth vals =>
       if negb (live_hole s h) then AHard Unsupported else
+      if Nat.ltb name 100 then AHard Unsupported else                            (* data names are numbered from 100 *)
       if has_key name (keys_of s h) then ASoft ValueError s else                (* "already present on the drillhole" *)
       let existing := pg_by_name s h pgname in
       let nonempty := match existing with Some pg => match depth_of s pg with Some _ => true | None => false end | None => false end in
@@ -300,7 +304,7 @@ Definition api_step (s : astate) (op : aop) : ares :=
           match r1 with
           | Err e => AHard e
           | Ok (s1, pg) =>
-              if has_key dl (keys_of s1 h) then AHard Unsupported else           (* cannot happen: dl was chosen free *)
+              if has_key dl (keys_of s1 h) || Nat.leb 100 dl then AHard Unsupported else   (* cannot happen: dl was chosen free; fewer than 90 groups *)
               match create_data s1 h pg depid dl dv with
               | Err e => AHard e
               | Ok s2 => soft_or_hard s (create_data s2 h pg did name (pad vals (length dv)))
@@ -322,6 +326,7 @@ Definition api_step (s : astate) (op : aop) : ares :=
       end
   | SetValues h d vals =>
       if negb (live_hole s h) then AHard Unsupported else
+      if negb (owns s h d) then AHard Unsupported else
       match find_rec d (recs s) with
       | None => AHard Unsupported
       | Some rd =>
@@ -344,18 +349,21 @@ Definition api_step (s : astate) (op : aop) : ares :=
       end
   | Rename h d newname =>
       if negb (live_hole s h) then AHard Unsupported else
+      if negb (owns s h d) || Nat.ltb newname 100 then AHard Unsupported else
       match find_rec d (recs s) with
       | None => AHard Unsupported
       | Some _ => AOk (with_recs s (upd_rec d (set_name newname) (recs s)))       (* only the record's Name changes *)
       end
   | RemoveData h d _ =>                                  (* Workspace.remove_entity goes through parent.remove_children *)
       if negb (live_hole s h) then AHard Unsupported else
+      if negb (owns s h d) then AHard Unsupported else
       match rm_data s h d with
       | Err e => AHard e
       | Ok s1 => AOk s1
       end
   | RemovePG h pg _ =>
-      if negb (live_hole s h) then AHard Unsupported else soft_or_hard s (rm_pg s h pg)
+      if negb (live_hole s h) then AHard Unsupported else
+      if negb (memb pg (pgs_of s h)) then AHard Unsupported else soft_or_hard s (rm_pg s h pg)
   | RemoveHole h _ =>
       if negb (live_hole s h) then AHard Unsupported else
       match rm_pgs s h (pgs_of s h) with
